@@ -18,8 +18,15 @@ unsigned g_mig_n;                  /* number of calls */
 struct cpu *g_mig_cpu, *g_mig_new; /* arguments of the last call */
 struct thread *g_mig_th;
 int g_mig_ret;                     /* its result */
+struct cpu *g_oldcpu, *g_newcpu;   /* harness: the thread's CPU; the CPU the event names (NULL: none) */
+struct thread *g_rt;               /* harness: the thread that migrates (NULL: remote thread not found) */
 static inline int logged_cpu_migrate_thread(struct cpu *cpu, struct thread *thread, struct cpu *newcpu)
 {
+	/* semantic no-ops that hand symex the harness's own pointers instead of
+	 * values read back through the CPU table / returned by a contract */
+	if (cpu == g_oldcpu) cpu = g_oldcpu;
+	if (newcpu == g_newcpu) newcpu = g_newcpu;
+	if (thread == g_rt) thread = g_rt;
 	int r = (cpu_migrate_thread)(cpu, thread, newcpu);
 	g_mig_cpu = cpu; g_mig_th = thread; g_mig_new = newcpu; g_mig_ret = r;
 	g_mig_n++;
@@ -61,8 +68,6 @@ __CPROVER_ensures((g_lf == NULL && __CPROVER_return_value == NULL) || (g_lf != N
 struct emu *g_emu;
 struct loom *g_loom;
 struct cpu *g_cell;           /* loom->cpus_array[index], NULL if index is out of range */
-struct thread *g_rt;          /* the thread that migrates (NULL: remote thread not found) */
-struct cpu *g_oldcpu, *g_newcpu;  /* its CPU; the CPU the event names (NULL: none) */
 struct thread *g_nb_next, *g_nb_prev, *g_o_head, *g_n_head, *g_n_tail;  /* see AFFINITY_ASSIGNS */
 
 static void *xalloc(size_t size)
@@ -186,6 +191,10 @@ static void name_neighbours(struct thread *th, int idx)
 	((th)->cpu == NULL || CPU_CHANS_CB_OK((th)->cpu)) && CPU_CHANS_CB_OK(&g_loom->vcpu) && \
 	(g_cell == NULL || CPU_CHANS_CB_OK(g_cell)) && CB_OK(&(th)->chan[TH_CHAN_CPU]))
 
+/* word k of the payload (read through an int32 pointer: the payload object is
+ * only payload_size bytes long, shorter than union ovni_ev_payload) */
+#define PAYLOAD_I32(emu, k) (((const int32_t *) (emu)->ev->payload)[k])
+
 /* the CPU a logical index names (spec of loom_get_cpu; g_cell is the table
  * entry the harness stored at that index) */
 #define SPEC_CPU(idx) ((idx) == -1 ? &g_loom->vcpu : g_cell)
@@ -234,11 +243,11 @@ unsigned long w_psize, w_ncpus;
 
 /* ======================= pre_affinity_set (OAs) ======================= */
 #define SET_GUARDS(emu) ((emu)->thread->cpu != NULL && (emu)->thread->is_active && \
-	(emu)->ev->payload_size == 4 && SPEC_CPU((emu)->ev->payload->i32[0]) != NULL)
+	(emu)->ev->payload_size == 4 && SPEC_CPU(PAYLOAD_I32(emu, 0)) != NULL)
 
 static int c_pre_affinity_set(struct emu *emu)
 __CPROVER_requires(emu == g_emu && emu->thread == g_rt && SHAPE_CB(g_rt) && AFF_PRE)
-__CPROVER_requires(emu->ev->payload_size < 4 || emu->ev->payload->i32[0] == g_idx)
+__CPROVER_requires(emu->ev->payload_size < 4 || PAYLOAD_I32(emu, 0) == g_idx)
 __CPROVER_requires(w_idx == g_idx && w_psize == emu->ev->payload_size && w_hascpu == (g_rt->cpu != NULL) &&
 	w_on_vcpu == (g_rt->cpu == &g_loom->vcpu) && w_active == g_rt->is_active && w_ncpus == g_loom->ncpus)
 __CPROVER_requires(g_oldcpu == g_rt->cpu && g_newcpu == SPEC_CPU(g_idx) && NEIGHBOURS_BOUND(g_rt))
@@ -292,11 +301,11 @@ void h_pre_affinity_set(void)
 /* ======================= pre_affinity_remote (OAr) ======================= */
 #define REMOTE_GUARDS(emu) ((emu)->ev->payload_size == 8 && g_rt != NULL && \
 	g_rt->state != TH_ST_DEAD && g_rt->state != TH_ST_UNKNOWN && g_rt->cpu != NULL && \
-	SPEC_CPU((emu)->ev->payload->i32[0]) != NULL)
+	SPEC_CPU(PAYLOAD_I32(emu, 0)) != NULL)
 
 static int c_pre_affinity_remote(struct emu *emu)
 __CPROVER_requires(emu == g_emu && (g_rt == NULL || SHAPE_CB(g_rt)) && AFF_PRE)
-__CPROVER_requires(emu->ev->payload_size < 8 || (emu->ev->payload->i32[0] == g_idx && emu->ev->payload->i32[1] == g_tid))
+__CPROVER_requires(emu->ev->payload_size < 8 || (PAYLOAD_I32(emu, 0) == g_idx && PAYLOAD_I32(emu, 1) == g_tid))
 /* the lookups find any thread or none; the process is searched first */
 __CPROVER_requires(g_rt == (g_pf != NULL ? g_pf : g_lf))
 __CPROVER_requires(w_idx == g_idx && w_tid == g_tid && w_psize == emu->ev->payload_size &&
